@@ -115,6 +115,7 @@ class Ctx:
         self.memo = {}            # per-path memo tables (sqrt terms, sums, ...)
         self.tag = ""             # current function/loop tag used in obligation ids
         self.n_branch_queries = 0
+        self.hyps = []            # local hypotheses (antecedents of obligations), see hypothesis()
         self.numpy_mode = 0       # >0 while evaluating element-wise NumPy operations
         self.qfacts = []          # quantified facts instantiated by hand (see npmodel)
         self.grounds = []         # index terms at which quantified facts are instantiated
@@ -223,9 +224,25 @@ class Ctx:
             goal = z3.BoolVal(goal)
         path = "".join("T" if d else "F" for d in self.decisions)
         oid = f"{self.tag}/{kind}.{label}"
-        o = Obligation(oid, kind, label, list(self.pc), goal, meta, path, expect_sat)
+        hyps = [h for h in self.hyps if not isinstance(h, bool)]
+        if any(h is False for h in self.hyps):
+            goal = z3.BoolVal(True)
+        o = Obligation(oid, kind, label, list(self.pc) + hyps, goal, meta, path, expect_sat)
         self.obls.append(o)
         return o
+
+    def hypothesis(self, f):
+        """context manager: obligations emitted inside have `f` as an additional antecedent.
+        Deliberately not given to the branch solver (decisions must not depend on it)."""
+        ctx = self
+
+        class _H:
+            def __enter__(self_):
+                ctx.hyps.append(f)
+
+            def __exit__(self_, *a):
+                ctx.hyps.pop()
+        return _H()
 
     def __enter__(self):
         _CUR.append(self)
